@@ -35,6 +35,44 @@ PROPS = {
         'assumptions': ['acyclic dependency graphs (cycles deadlock); real interleavings inside sync primitives are sampled, not enumerated'],
         'rule': 'random acyclic programs (1-8 dependencies, 1-3 concurrent roots, 0-2 calls per body, parallel/serial/ctx forms, repeats, five outcome kinds, three function signatures) under a random gate-release schedule (5/6 gated, 1/6 free-running); distinct = different canonical (program, observed trace); trivial = trace of <= 3 events',
     },
+    'C04': {
+        'lean': ['MageModel.Props.C04', 'MageModel.Bridge.FE'],
+        'needs_mage': True,
+        'streams': [S('ferun', 8, 60)],
+        'trusted': ['go/parser, go/doc and go list (what they hand to mage is the abstract syntax the generator renders from)', 'the Go compiler translating the generated switch faithfully', 'strconv.Atoi/ParseBool, time.ParseDuration (answers recorded per word and given to the model)', 'ASCII identifiers (exported-ness and lower-casing are modelled for ASCII)'],
+        'assumptions': ['flags are not mixed into the word list except after "--"'],
+        'rule': 'generated magefile projects (1-3 files, namespaces, 0-3 mage:import packages, aliases, default) compiled by the real mage; 24 (quick) / 80 (thorough) generated command lines per project run through mage, the cached binary and a -compile\'d binary; distinct = different canonical (project, words, failing callee)',
+    },
+    'C06': {
+        'lean': ['MageModel.Props.C06', 'MageModel.Bridge.FE'],
+        'needs_mage': True,
+        'streams': [S('feparse', 60, 1200), S('ferun', 5, 40)],
+        'trusted': ['go/parser, go/doc and go list (what they hand to mage is the abstract syntax the generator renders from)', 'the Go compiler translating the generated switch faithfully', 'strconv.Atoi/ParseBool, time.ParseDuration (answers recorded per word and given to the model)', 'ASCII identifiers (exported-ness and lower-casing are modelled for ASCII)'],
+        'assumptions': ['completeness of the build obligations w.r.t. the Go type checker is tested (every generated project that go can build must build under mage), not proved', 'generic functions are outside the generator (known limitation D25)'],
+        'rule': 'generated packages with every way of writing parameter lists (grouped, unnamed, blank, named results), invalid signatures of eight kinds, unexported names/types, non-namespace receivers, pointer receivers; in-process parse.PrimaryPackage dump and -l map keys vs the model; e2e compile of every project',
+    },
+    'C07': {
+        'lean': ['MageModel.Props.C07', 'MageModel.Bridge.FE'],
+        'streams': [S('feparse', 80, 1500)],
+        'trusted': ['go/parser, go/doc and go list (what they hand to mage is the abstract syntax the generator renders from)', 'the Go compiler translating the generated switch faithfully', 'strconv.Atoi/ParseBool, time.ParseDuration (answers recorded per word and given to the model)', 'ASCII identifiers (exported-ness and lower-casing are modelled for ASCII)'],
+        'assumptions': [],
+        'rule': 'generated packages with one injected collision (or near miss) of seven kinds: case-variant functions, alias vs target, alias vs alias, alias vs imported target, local vs root-imported target, near misses; accept/reject class vs the model',
+    },
+    'C18': {
+        'lean': ['MageModel.Props.C18', 'MageModel.Bridge.FE'],
+        'streams': [S('feparse', 40, 600)],
+        'trusted': ['go/parser, go/doc and go list (what they hand to mage is the abstract syntax the generator renders from)', 'the Go compiler translating the generated switch faithfully', 'strconv.Atoi/ParseBool, time.ParseDuration (answers recorded per word and given to the model)', 'ASCII identifiers (exported-ness and lower-casing are modelled for ASCII)'],
+        'assumptions': ['string comparison is a total order (hypothesis of sort_perm_invariant)'],
+        'rule': 'generated packages with competing imports (equal package names, equal aliases, the same path tagged in two files); the main file is generated 25 times per project in one process (Go re-randomises every map range) and must be byte-identical; unique names vs the model',
+    },
+    'C19': {
+        'lean': ['MageModel.Props.C19', 'MageModel.Bridge.FE'],
+        'needs_mage': True,
+        'streams': [S('feparse', 80, 1500), S('ferun', 4, 30)],
+        'trusted': ['go/parser, go/doc and go list (what they hand to mage is the abstract syntax the generator renders from)', 'the Go compiler translating the generated switch faithfully', 'strconv.Atoi/ParseBool, time.ParseDuration (answers recorded per word and given to the model)', 'ASCII identifiers (exported-ness and lower-casing are modelled for ASCII)'],
+        'assumptions': ['strings.Fields(strings.ToLower(..)) is recorded per comment line and given to the model'],
+        'rule': 'generated packages whose imports carry the tag leading/trailing/single-line/grouped with comment groups of 1-12 lines, six tag spellings, aliases, near-miss tags, the same package in two files; PkgInfo (imports, unique names, imported targets) vs the model; e2e runs of imported targets',
+    },
     'C14': {
         'lean': ['MageModel.Props.C14', 'MageModel.Bridge.C14'],
         'streams': [S('c14', 1500, 30000), S('ident', 600, 8000)],
